@@ -3,7 +3,7 @@ Proofs/Freeze.lean — lemmas about `freeze_value` on the model of Python values
 -/
 import AutomataVerif.Model.Freeze
 
-namespace AV.PyVal
+namespace AV.VA.PyVal
 
 /-! ### freezing preserves the abstract value -/
 
@@ -126,4 +126,4 @@ theorem freezeKVs_eq_map (kvs : List (PyVal × PyVal)) :
   | nil => rfl
   | cons kv t ih => obtain ⟨k, v⟩ := kv; simp [freezeKVs, ih]
 
-end AV.PyVal
+end AV.VA.PyVal
